@@ -27,6 +27,12 @@
 #include "c04_schema_builder.h"
 #include "c04_schema_json_parser.h"
 #include "c04_schema_verifier.h"
+#ifdef C04_SROOT
+/* gen/c04_sroot.fbs: struct root_type; built as a second executable because this header may not compile */
+#include "c04_sroot_builder.h"
+#include "c04_sroot_json_parser.h"
+#include "c04_sroot_verifier.h"
+#endif
 
 void __asan_set_error_report_callback(void (*cb)(const char *));
 void __asan_poison_memory_region(void const volatile *addr, size_t size);
@@ -146,6 +152,14 @@ static int moving_alloc(void *alloc_context, flatcc_iovec_t *b, size_t request, 
     return 0;
 }
 
+/* the schema-level entry point <basename>_parse_json (table root): no fid argument, the schema's file identifier is used */
+static int schema_root_parse(flatcc_builder_t *b, flatcc_json_parser_t *ctx, const char *buf, size_t bufsiz, flatcc_json_parser_flags_t flags, const char *fid)
+{ (void)fid; return c04_schema_parse_json(b, ctx, buf, bufsiz, flags); }
+#ifdef C04_SROOT
+static int sroot_schema_parse(flatcc_builder_t *b, flatcc_json_parser_t *ctx, const char *buf, size_t bufsiz, flatcc_json_parser_flags_t flags, const char *fid)
+{ (void)fid; return c04_sroot_parse_json(b, ctx, buf, bufsiz, flags); }
+#endif
+
 typedef int parse_f(flatcc_builder_t *B, flatcc_json_parser_t *ctx, const char *buf, size_t bufsiz, flatcc_json_parser_flags_t flags, const char *fid);
 typedef int verify_f(const void *buf, size_t bufsiz, const char *fid);
 struct root { const char *name; parse_f *parse; verify_f *verify, *verify_ws; };
@@ -162,6 +176,11 @@ static struct root roots[] = {
     { "Geo", C4_Geo_parse_json_as_root, C4_Geo_verify_as_root_with_identifier, C4_Geo_verify_as_root_with_identifier_and_size },
     { "Tri", C4_Tri_parse_json_as_root, C4_Tri_verify_as_root_with_identifier, C4_Tri_verify_as_root_with_identifier_and_size },
     { "Poly", C4_Poly_parse_json_as_root, C4_Poly_verify_as_root_with_identifier, C4_Poly_verify_as_root_with_identifier_and_size },
+    { "Root@schema", schema_root_parse, C4_Root_verify_as_root_with_identifier, C4_Root_verify_as_root_with_identifier_and_size },
+#ifdef C04_SROOT
+    { "SPt", C4S_SPt_parse_json_as_root, C4S_SPt_verify_as_root_with_identifier, C4S_SPt_verify_as_root_with_identifier_and_size },
+    { "SPt@schema", sroot_schema_parse, C4S_SPt_verify_as_root_with_identifier, C4S_SPt_verify_as_root_with_identifier_and_size },
+#endif
     { "Fix", C4_Fix_parse_json_as_root, C4_Fix_verify_as_root_with_identifier, C4_Fix_verify_as_root_with_identifier_and_size },
     { 0, 0, 0, 0 }
 };
